@@ -239,11 +239,12 @@ def two_symbolic(t):
 def run(ctx):
     rng = ctx.rng
     ctx.lean = common.lean_check('C13')
+    common.run_regressions(ctx, 'C13', lambda r: recheck(r))
     quick = ctx.quick()
     N = 500 if quick else 5000
     maxdepth = 3 if quick else 5
     corpus = common.load_corpus('C13')
-    cases = [c for c in corpus]
+    cases = [c for c in corpus if 'regress' not in c]
     while len(cases) < N:
         n = rng.randint(1, 3)
         poly = rng.random() < 0.35
@@ -306,3 +307,6 @@ def replay(obj):
     print('implementation returned:', common.canon_json(out))
     print('oracle:', why or 'ok')
     return 1 if why else 0
+
+
+recheck = common.recheck_via_replay(replay)
